@@ -19,6 +19,17 @@ def len (c : WTinyLfu κ ν) : Nat := c.window.len + c.main.len
 def cap (c : WTinyLfu κ ν) : Nat := c.window.cap + c.main.cap
 def isEmpty (c : WTinyLfu κ ν) : Bool := c.window.isEmpty && c.main.isEmpty
 
+/-- `if protected_len >= protected_cap { let ent = remove_lru_from_protected().unwrap(); self.lru.put(ent.0, ent.1); }` -/
+def makeProtectedRoom (c1 : WTinyLfu κ ν) : Res (WTinyLfu κ ν × List (Obj κ ν)) :=
+  if c1.main.prot.items.length ≥ c1.main.prot.cap then
+    match c1.main.removeLruFromProtected with
+    | (_, none) => .error (.unwrapNone "wtinylfu remove_lru_from_protected")
+    | (m', some ent) =>
+      match c1.window.put ent.1 ent.2 with
+      | .error f => .error f
+      | .ok (w'', r, e) => .ok ({ c1 with window := w'', main := m' }, e.drops ++ r.drops)
+  else .ok (c1, [])
+
 /-- `Cache::put` (wtinylfu.rs:502) -/
 def put (c : WTinyLfu κ ν) (kh : κ → UInt64) (k : κ) (v : ν) :
     Res (PutResult κ ν × WTinyLfu κ ν × List (Obj κ ν)) :=
@@ -55,17 +66,7 @@ def put (c : WTinyLfu κ ν) (kh : κ → UInt64) (k : κ) (v : ν) :
               | .error f => .error f
               | .ok (r, m', d) => .ok (r, { c1 with main := m' }, e.drops ++ d)
   | (w', some old, e0) =>
-    let c1 := { c with window := w' }
-    let step1 : Res (WTinyLfu κ ν × List (Obj κ ν)) :=
-      if c1.main.prot.items.length ≥ c1.main.prot.cap then
-        match c1.main.removeLruFromProtected with
-        | (_, none) => .error (.unwrapNone "wtinylfu remove_lru_from_protected")
-        | (m', some ent) =>
-          match c1.window.put ent.1 ent.2 with
-          | .error f => .error f
-          | .ok (w'', r, e) => .ok ({ c1 with window := w'', main := m' }, e.drops ++ r.drops)
-      else .ok (c1, [])
-    match step1 with
+    match ({ c with window := w' } : WTinyLfu κ ν).makeProtectedRoom with
     | .error f => .error f
     | .ok (c2, d1) =>
       match c2.main.putProtected k v with
